@@ -74,7 +74,7 @@ def handleInst (f : List String) : String × String × String :=
   match f with
   | [ds, cfg, ks, ranges, bits, owners] =>
     match parseDesc ds, cfg.splitOn ",", natList? ks, parseRes ranges with
-    | some d, [za, rf, op, id], some keys, some impl =>
+    | some d, za :: rf :: op :: id :: shard, some keys, some impl =>
       let rfN := rf.toNat?.getD 0
       let m := rangesForInstance d (za == "1") rfN id
       let zone := ((d.get? id).map (·.zone)).getD ""
@@ -93,7 +93,7 @@ def handleInst (f : List String) : String × String × String :=
           (if keys.isEmpty then [] else intervalConsistency tr keys bits ++ exactness bits (owners.splitOn ",") id)
       let mine := (zt.filter (·.2.id == id)).length
       let first := zt.head?
-      let tags := s!"inst res={if ranges.startsWith "ok" then "ok" else ranges} op={op} zones={(zonesOf d).length} zt={bucket zt.length} mine={bucket mine} t0={(first.map (·.1 == 0)).getD false} ownFirst={(first.map (·.2.id == id)).getD false} own1={zt.any fun p => p.1 == 1 && p.2.id == id}"
+      let tags := s!"{if shard.isEmpty then "inst" else "subring-inst size=" ++ shard.getD 1 "?"} res={if ranges.startsWith "ok" then "ok" else ranges} op={op} zones={(zonesOf d).length} zt={bucket zt.length} mine={bucket mine} t0={(first.map (·.1 == 0)).getD false} ownFirst={(first.map (·.2.id == id)).getD false} own1={zt.any fun p => p.1 == 1 && p.2.id == id}"
       (diff, joinReasons judge, tags)
     | _, _, _, _ => ("bad-input", "-", "-")
   | _ => ("bad-fields", "-", "-")
@@ -108,7 +108,7 @@ def handleTile (f : List String) : String × String × String :=
   match f with
   | [ds, cfg, _, obs] =>
     match parseDesc ds, cfg.splitOn ",", parseAssoc obs with
-    | some d, [za, rf], some impl =>
+    | some d, za :: rf :: shard, some impl =>
       let rfN := rf.toNat?.getD 0
       let model := ";".intercalate (d.map fun i => i.id ++ "=" ++ showRes (rangesForInstance d (za == "1") rfN i.id))
       let diff := if model == obs then "-" else "model=" ++ model
@@ -118,7 +118,7 @@ def handleTile (f : List String) : String × String × String :=
         let rs := members.map fun id => (impl.find? (·.1 == id)).bind (·.2)
         if rs.all Option.isSome then tiling (rs.flatMap fun r => pairs (r.getD [])) else []
       let ok := impl.all (·.2.isSome)
-      let tags := s!"tile res={if ok then "ok" else "err"} zones={(zonesOf d).length} inst={bucket d.length}"
+      let tags := s!"{if shard.isEmpty then "tile" else "subring-tile size=" ++ shard.getD 1 "?"} res={if ok then "ok" else "err"} zones={(zonesOf d).length} inst={bucket d.length}"
       (diff, joinReasons judge, tags)
     | _, _, _ => ("bad-input", "-", "-")
   | _ => ("bad-fields", "-", "-")
@@ -185,8 +185,8 @@ def handleInc (f : List String) : String × String × String :=
   | _ => ("bad-fields", "-", "-")
 
 def handle (cmd : String) (f : List String) : String × String × String :=
-  if cmd == "C14.inst" then handleInst f
-  else if cmd == "C14.tile" then handleTile f
+  if cmd == "C14.inst" || cmd == "C14.sinst" then handleInst f
+  else if cmd == "C14.tile" || cmd == "C14.stile" then handleTile f
   else if cmd == "C14.part" then handlePart f
   else if cmd == "C14.ptile" then handlePtile f
   else if cmd == "C14.inc" then handleInc f
